@@ -135,13 +135,13 @@ def rateParts (v : Bytes) : Bytes × Bytes :=
 def unitFix (db : Bytes) : Bytes := if bareUnits.contains db then 49 :: db else db
 
 /-- `rateFlag.Set`, exactly as coded:
-`"infinity"` returns nil without touching the rate;
+`"infinity"` sets `Freq = 0` and returns nil (`Per` untouched);
 `SplitN(v, "/", 2)`, a missing second part becomes `"1s"`;
 `f.Freq, err = Atoi(ps[0])` (assigned also on error);
 `Freq == 0` returns nil leaving `Per` untouched;
 a bare unit gets a `"1"` prefix; `f.Per, err = ParseDuration(ps[1])`. -/
 def rateSet (r : Rate) (v : Bytes) : Res Rate :=
-  if v = infinityWord then ⟨r, .ok ()⟩ else
+  if v = infinityWord then ⟨{ r with freq := 0 }, .ok ()⟩ else
   match atoi (rateParts v).1 with
   | (n, some e) => ⟨{ r with freq := n }, .error e⟩
   | (n, none) =>
@@ -150,6 +150,11 @@ def rateSet (r : Rate) (v : Bytes) : Res Rate :=
     | .ok d => ⟨⟨n, d⟩, .ok ()⟩
     | .error e => ⟨⟨n, 0⟩, .error e⟩
     | .panic => ⟨⟨n, r.per⟩, .panic⟩
+
+/-- `rateFlag.Set` as it was before the repair of defect 13 (DESIGN §8): `"infinity"` returned
+nil without touching the rate. Kept only for `rate_infinity_old_counterexample`. -/
+def rateSetOld (r : Rate) (v : Bytes) : Res Rate :=
+  if v = infinityWord then ⟨r, .ok ()⟩ else rateSet r v
 
 /-- `rateFlag.String`: `fmt.Sprintf("%d/%s", f.Freq, f.Per)` -/
 def rateString (r : Rate) : Bytes := fmtInt r.freq ++ 47 :: Duration.toString r.per
